@@ -722,7 +722,7 @@ PROPS["C09"]["diff"] = PROPS["C09"]["diff"] + [dict(_TRACE_DIFF, slice="tracehed
 PROPS["C09"]["rule"] += "; trace slice: real hedged executions (maxHedges 0-3, default and CancelIf conditions, attempt durations 0-2 ms around the 400 us hedge delay): OnHedge, every attempt's entry and return (with whether its value matches the cancel conditions), the returned value's attempt and every entered attempt's IsCanceled() after the return, stamped with one atomic counter, must be shown by some interleaving of the Lean model"
 PROPS["C09"]["manifest"]["text"] += " TRACE: recorded event lists of real hedged executions are decided by an acceptor proved exact for the interleaving model; what acceptance implies is proved in the property file."
 PROPS["C09"]["manifest"]["technique"] += " + trace acceptance against the interleaving model (acceptor proved sound and complete)"
-PROPS["C09"]["required_theorems"] += ["Failsafe.Props.C09." + t for t in ["count_enqueues", "accepted_states_inv", "returned_value_was_produced", "hedge_event_needs_slot", "readings_after_return"]]
+PROPS["C09"]["required_theorems"] += ["Failsafe.Props.C09." + t for t in ["count_enqueues", "accepted_states_inv", "returned_value_was_produced", "hedge_event_needs_slot", "readings_after_return", "returned_needs_finish_event", "returned_value_after_its_finish"]]
 PROPS["C04"]["required_theorems"] += ["Failsafe.Props.C04." + t for t in ["kernel_admission", "kernel_records_once", "model_breaker_layer_is_the_codes"]]
 PROPS["C03"]["required_theorems"] += ["Failsafe.Props.C03.composition_clock_monotone", "Failsafe.Props.C03.layer_clock_monotone"]
 
